@@ -656,7 +656,7 @@ def bounded_only(prop, tier, seed, reason, ws, info, t0, cmd=None):
           % (prop, cases, ws.get("distinct_inputs") or 0, ws.get("emitted_files_checked") or 0))
     ev = {"property_id": prop, "tier": tier, "seed": seed, "level": "exploration",
           "coverage": {"evaluations": cases, "distinct_nontrivial": ws.get("distinct_inputs_that_parse") or 0,
-                       "rule": "inputs of the generated families of tools/replay (layout / vftable / enum / function / inheritance / resolution / absurd / emit corpus / directory trees, see DESIGN.md 3.7, 3.7b), run through the real crate and compared with executable restatements of the property; distinct = distinct (module texts, pointer size), non-trivial = every module text parses",
+                       "rule": "inputs of the generated families of tools/replay (layout / vftable / enum / function / inheritance / resolution / absurd / emit corpus / directory trees, see DESIGN.md 3.7, 3.7b), run through the real crate and compared with executable restatements of the property; distinct = distinct (module texts, pointer size), non-trivial = every module text is non-empty with balanced braces (a cheap stand-in for 'parses')",
                        "samples": ws.get("samples") or ["(no sample recorded)"],
                        "explanation": "the deductive check is UNDECIDED on this tree (%s); this run is the bounded stand-in only and proves nothing" % reason[:300],
                        "emitted_files_checked": ws.get("emitted_files_checked"), "checker_cmd": " ".join(cmd) if cmd else "(the woven crate could not be produced; no verifier run)",
